@@ -19,7 +19,7 @@ for d in seeded/${SEED_GLOB:-C[0-9][0-9]-[0-9]*}; do
     C01-8) props="--props C01,C03,C12";; C07-8|C07-10) props="--props C07,C09";;
     C02-10) props="--props C02,C16";; C13-10) props="--props C13,C12,C01";;
     C08-10) props="--props C08,C11";; C01-11) props="--props C01,C19";;
-    C01-12) props="--props C01,C11";; esac
+    C01-12) props="--props C01,C11";; C19-12) props="--props C19,C11";; esac
   [ -f $d/NOTE.md ] && { echo "$s neutralised (see NOTE.md)"; continue; }
   [ "${SEED_REPO:-/repo}" = /repo ] && tools/rebase_seed.sh $d >/dev/null 2>&1
   r=$(python3 tools/seedtest.py $d $conf $props 2>&1 | grep -E '"confirmed"|"caught"' | tr -d ' \n')
